@@ -53,6 +53,33 @@ NestOK(evs, i, open) ==
        THEN (open = <<>> \/ open[Len(open)] <= e.a[1]) /\ NestOK(evs, i + 1, open)
        ELSE NestOK(evs, i + 1, open)
 
+\* ---- spans of marked nodes: the tree the events denote, every node carrying the span of the event that created it
+\* (an alias node: the span of the Alias event, its children as the anchored node has them; an empty document: a
+\* node with the span of DocumentEnd). Result: the spans in pre-order, document after document.
+LOCAL Lst(q) == q[Len(q)]
+LOCAL Frt(q) == SubSeq(q, 1, Len(q) - 1)
+RECURSIVE AncFind(_, _, _)
+AncFind(m, id, i) == IF i = 0 THEN <<>> ELSE IF m[i][1] = id THEN <<m[i][2]>> ELSE AncFind(m, id, i - 1)
+RECURSIVE PreOrder(_)
+RECURSIVE PreOrderAll(_, _)
+PreOrderAll(ts, i) == IF i > Len(ts) THEN <<>> ELSE PreOrder(ts[i]) \o PreOrderAll(ts, i + 1)
+PreOrder(t) == <<t.sp>> \o PreOrderAll(t.kids, 1)
+\* state: [stack: frames [sp, kids, aid], anc: <<id, tree>> pairs, root: <<>> | <<tree>>, out: spans so far]
+SpDone(c, tree, aid) ==
+  LET c1 == IF aid > 0 THEN [c EXCEPT !.anc = Append(@, <<aid, tree>>)] ELSE c IN
+  IF c1.stack = <<>> THEN [c1 EXCEPT !.root = <<tree>>] ELSE [c1 EXCEPT !.stack[Len(c1.stack)].kids = Append(@, tree)]
+SpStep(c, e) ==
+  LET sp == <<e.a, e.b>> IN
+  IF e.k = "Scalar" THEN SpDone(c, [sp |-> sp, kids |-> <<>>], e.aid)
+  ELSE IF e.k = "Alias" THEN LET f == AncFind(c.anc, e.aid, Len(c.anc)) IN SpDone(c, [sp |-> sp, kids |-> IF f = <<>> THEN <<>> ELSE f[1].kids], 0)
+  ELSE IF e.k \in {"SequenceStart", "MappingStart"} THEN [c EXCEPT !.stack = Append(@, [sp |-> sp, kids |-> <<>>, aid |-> e.aid])]
+  ELSE IF e.k \in {"SequenceEnd", "MappingEnd"} THEN (IF c.stack = <<>> THEN c ELSE LET f == Lst(c.stack) IN SpDone([c EXCEPT !.stack = Frt(@)], [sp |-> f.sp, kids |-> f.kids], f.aid))
+  ELSE IF e.k = "DocumentEnd" THEN [c EXCEPT !.out = @ \o (IF c.root = <<>> THEN <<sp>> ELSE PreOrder(c.root[1])), !.root = <<>>]
+  ELSE c
+RECURSIVE SpRun(_, _, _)
+SpRun(c, evs, i) == IF i > Len(evs) THEN c ELSE SpRun(SpStep(c, evs[i]), evs, i + 1)
+MarkedSpans(evs) == SpRun([stack |-> <<>>, anc |-> <<>>, root |-> <<>>, out |-> <<>>], evs, 1).out
+
 \* the printed form of an error shows the line and the 1-based column
 DisplayOK(words, at) ==
   \E i \in 1..Len(words) : i + 3 <= Len(words) /\ words[i] = "line" /\ words[i + 1] = ToString(at[2])
